@@ -248,6 +248,24 @@ func (c *ClientStateResponseWriter) Unwrap() http.ResponseWriter {
 	return c.ResponseWriter
 }
 
+// FlushError writes the client state before it flushes the underlying
+// writer: a flush releases the header, and without this method
+// http.ResponseController would reach the underlying writer through Unwrap
+// and release it with the client state still pending.
+func (c *ClientStateResponseWriter) FlushError() error {
+	if !c.hasWritten {
+		if err := c.putClientState(); err != nil {
+			return err
+		}
+	}
+	return http.NewResponseController(c.ResponseWriter).Flush()
+}
+
+// Flush implements http.Flusher, see FlushError
+func (c *ClientStateResponseWriter) Flush() {
+	_ = c.FlushError()
+}
+
 func (c *ClientStateResponseWriter) putClientState() error {
 	if c.hasWritten {
 		panic("should not call putClientState twice")
